@@ -127,11 +127,26 @@ pub fn mutants(rng: &mut Rng, w: &Written, chunks: &[Chunk], tier: Tier, lenient
                 }
             }
             // 5./6. declared uncompressed size
-            for k in 0..per {
-                let v: usize = match k % 3 {
-                    0 if info.unpacked > 1 => rng.range(1, (info.unpacked - 1) as u64) as usize,
-                    1 => info.unpacked + rng.range(1, 64) as usize,
-                    _ => info.unpacked + 1,
+            // output produced before this chunk: in total, and since the last dictionary reset
+            // (R20-C17: the chunk's end position computed before the reset, so a chunk that
+            // under-declares by exactly that amount was accepted)
+            let before_total: usize = w.chunks[..ci].iter().map(|c| c.unpacked).sum();
+            let mut before_since_reset = 0usize;
+            for c in &w.chunks[..ci] {
+                if c.control == 1 || c.control >= 0xE0 {
+                    before_since_reset = 0;
+                }
+                before_since_reset += c.unpacked;
+            }
+            for k in 0..per + 2 {
+                let v: usize = match k {
+                    _ if k == per => info.unpacked.saturating_sub(before_total),
+                    _ if k == per + 1 => info.unpacked.saturating_sub(before_since_reset),
+                    _ => match k % 3 {
+                        0 if info.unpacked > 1 => rng.range(1, (info.unpacked - 1) as u64) as usize,
+                        1 => info.unpacked + rng.range(1, 64) as usize,
+                        _ => info.unpacked + 1,
+                    },
                 };
                 if v == info.unpacked || v > (1 << 21) || v == 0 {
                     continue;
@@ -262,9 +277,10 @@ fn fam_base(ctx: &CaseCtx, cov: &mut Cov) -> CaseOut {
         }
     };
     // the base stream itself must be accepted (otherwise the mutants prove nothing)
+    // (a mutant that is ACCEPTED is a violation whatever happens to the base stream, so the
+    // mutants are still run; the case stays inconclusive for the rejections it observes)
     if !run_one(0, &w.bytes).is_ok() {
         out.harness_error("base stream not accepted by lzma-rs (C02's business)");
-        return out;
     }
     let mut lenient = 0u64;
     let ms = mutants(&mut rng, &w, &chunks, ctx.tier, &mut lenient);
